@@ -36,7 +36,12 @@ PREFIX_D = [
     {'op': 'createTrial', 'sid': 't', 'trial': _DONE(11)}, {'op': 'createTrial', 'sid': 't', 'trial': _DONE(12)},
     {'op': 'createTrial', 'sid': 't', 'trial': _DONE(13)}, {'op': 'createTrial', 'sid': 't', 'trial': _DONE(14)},
 ]   # TWO studies of one owner with 2 and 4 completed trials, no algorithm state yet: their first suggestions are independent
-PREFIXES = {'A': PREFIX_A, 'B': PREFIX_B, 'C': PREFIX_C, 'D': PREFIX_D}
+PREFIX_E = [
+    {'op': 'createStudy', 'display': 's', 'state': 'ACTIVE'},
+    {'op': 'createTrial', 'trial': {'state': 'REQUESTED', 'params': 1, 'meas': [], 'final': None, 'md': []}},
+    {'op': 'suggest', 'client': 'w1', 'count': 1, 'alg': {'kind': 'ok', 'sugg': [], 'delta': []}},     # takes the queued trial: no algorithm call
+]   # trial 1 is the study's ONLY ACTIVE trial (used with the service's own early-stopping algorithm)
+PREFIXES = {'A': PREFIX_A, 'B': PREFIX_B, 'C': PREFIX_C, 'D': PREFIX_D, 'E': PREFIX_E}
 
 
 def S(n, base, delta=None):
@@ -281,7 +286,7 @@ def pairs_for(tier, rng):
   allpairs = [(a, b) for i, a in enumerate(names) for b in names[i:]]
   tasks = []
   for pname in PREFIXES:
-    if pname == 'D':
+    if pname in ('D', 'E'):
       continue            # the two-study prefix: directed pairs only (run)
     for a, b in allpairs:
       # requests on trial 1/2 need the prefix with those trials
@@ -332,6 +337,9 @@ def run(c):
            ('ram', 'D', 'suggestNew', 'suggestOnT', limit)]
   if c.tier == 'thorough':
     jobs += [('hosted:sqlmem', 'D', 'suggestNew', 'suggestOnT', limit)]
+  # the service's own early-stopping algorithm (RandomPolicy over the ACTIVE trials it lists itself) against calls
+  # that take the checked trial - the study's only ACTIVE one - away between the check and the algorithm's read
+  jobs += [('realalg:ram', 'E', 'earlyStop1', b, limit) for b in ('complete1', 'delete1', 'stop1', 'complete1inf')]
   alias_pairs = [('setInactiveAlias', 'mdStudy'), ('createTrialAlias', 'createTrial'), ('mdStudyAlias', 'setInactive'),
                  ('mdStudyAlias', 'mdStudyK0'), ('createTrialAlias', 'suggestNew'), ('setInactiveAlias', 'complete1')]
   jobs += [(be, 'A', a, b, limit) for be in backends for a, b in alias_pairs]
